@@ -439,6 +439,32 @@ pub fn eval_events(t: &Tables, dir: &str, nshards: usize, seed: u64, randoms: u6
         n += 1;
         counts[2] += 1;
     }
+    // pairs with a pawn: every evaluation term that looks at a piece next to / behind / in front of a pawn (trapped pieces,
+    // outposts, rooks behind pawns, pawn structure) lives here.  A pawn of either colour with any other man on each of the
+    // eight neighbouring squares: exhaustive; a pawn with any other man anywhere: every `pair_stride`-th member
+    let pair_stride: u64 = if randoms > 50000 { 1 } else { 12 };
+    let mut pairs = 0u64;
+    let mut pidx = 0u64;
+    for pc in [1u32, 7] {
+        for ps in 9..=56u32 {
+            for oc in 1..=12u32 {
+                for os in 1..=64u32 {
+                    if os == ps || ((oc == 1 || oc == 7) && (os <= 8 || os >= 57)) {
+                        continue;
+                    }
+                    let (df, dr) = ((((os - 1) % 8) as i32 - ((ps - 1) % 8) as i32).abs(), (((os - 1) / 8) as i32 - ((ps - 1) / 8) as i32).abs());
+                    let adjacent = df <= 1 && dr <= 1;
+                    pidx += 1;
+                    if !adjacent && (pidx + seed) % pair_stride != 0 {
+                        continue;
+                    }
+                    out.emit(n % nshards, &eval_event(t, &[(ps, pc), (os, oc)], (pidx % 2) as u32, "pair", &mut rng));
+                    n += 1;
+                    pairs += 1;
+                }
+            }
+        }
+    }
     // boards REACHED by the engine's own machinery (generator successors incl. promotions, captures, castling, en passant;
     // the text applier) against a fresh object of the same placement and side to move: whatever the object carries along
     // (caches, flags, history) must not matter
@@ -484,7 +510,7 @@ pub fn eval_events(t: &Tables, dir: &str, nshards: usize, seed: u64, randoms: u6
         }
     }
     out.finish();
-    json!({"events": n, "basis": counts[0], "max": counts[1], "random": counts[2], "reached": reached})
+    json!({"events": n, "basis": counts[0], "max": counts[1], "random": counts[2], "reached": reached, "pairs_with_a_pawn": pairs})
 }
 
 // one step of a route: by the text applier, or by the generator's successor object that prints as `txt`
